@@ -106,8 +106,8 @@ mut("C08", "dense-power-one-short", ESO,
     "        for ti in range(2, self.dense_time.length):\n            Udt = numpy.tensordot(Ut1, Udt)",
     "        for ti in range(3, self.dense_time.length):\n            Udt = numpy.tensordot(Ut1, Udt)")
 mut("C08", "jit-save-writes-wrong-index", ESO,
-    "                if save:\n                    self.data[ti, :,:,:,:] = \\\n                        numpy.tensordot(self.Udt, self.data[ti-1,:,:,:,:])",
-    "                if save:\n                    self.data[ti, :,:,:,:] = \\\n                        numpy.tensordot(self.Udt, self.data[max(ti-2,0),:,:,:,:])")
+    "                if save:\n                    self.data[ti, :,:,:,:] = \\\n                        numpy.tensordot(self.Udt.data, self.data[ti-1,:,:,:,:])",
+    "                if save:\n                    self.data[ti, :,:,:,:] = \\\n                        numpy.tensordot(self.Udt.data, self.data[max(ti-2,0),:,:,:,:])")
 mut("C08", "remaining-uses-wrong-previous", ESO,
     "                numpy.tensordot(Udt, self.data[ti-1,:,:,:,:])        \n",
     "                numpy.tensordot(Udt, self.data[ti-2,:,:,:,:])        \n")
@@ -115,8 +115,10 @@ mut("C08", "apply-uses-neighbouring-time", ESO,
     "                oper_ven.data = numpy.tensordot(self.data[ti, :, :, :, :],\n                                                target.data)",
     "                oper_ven.data = numpy.tensordot(self.data[max(ti-1,0), :, :, :, :],\n                                                target.data)")
 mut("C08", "jit-first-step-ignores-dense", ESO,
-    "                self.Udt = self._one_step_with_dense_TimeIndep(t0,\n                                                    self.dense_time.length,\n                                                    self.dense_time.step, Nt) ",
-    "                self.Udt = self._elemental_step_TimeIndep(t0,\n                                                    self.dense_time.step, Nt) ")
+    "                           self._one_step_with_dense_TimeIndep(t0,\n                                                    self.dense_time.length,\n                                                    self.dense_time.step, Nt))",
+    "                           self._elemental_step_TimeIndep(t0,\n                                                    self.dense_time.step, Nt))")
+mut("C08", "jit-one-step-propagator-bare-array-again", ESO,
+    "numpy.tensordot(self.Udt.data, self.data[:,:,:,:])", "numpy.tensordot(numpy.array(self.Udt._data), self.data[:,:,:,:])")
 mut("C08", "identity-not-reinitialised", ESO,
     "                    self.data[0,i,j,i,j] = 1.0\n                \n        elif self.mode == \"jit\":",
     "                    self.data[0,i,j,i,j] = 1.0 if i <= j else 0.0\n                \n        elif self.mode == \"jit\":")
